@@ -22,6 +22,7 @@ from simkit import net as simnet
 ID = "C19"
 LEVEL = "fault_enumeration"
 TIERS = {"quick": {"runs": 2000, "wall": 150}, "thorough": {"runs": 40000, "wall": 1500}}
+HASHSEED_RUNS = {"quick": 60, "thorough": 600}    # S7: identical event logs under other hash seeds
 TRACE_KEYS = ("faults",)
 RUN_TIMEOUT = 240     # one run = fault-free + every single fault (+ pairs) on one world
 RULE = ("worlds = seeded random file histories v0..vn (n<=6, <=12 lines each) published as "
